@@ -70,7 +70,6 @@ func (c *frombeCircuit) Define(api frontend.API) error {
 	return nil
 }
 
-
 func init() {
 	commands["c06"] = func(args []string) {
 		var cs c06Cases
